@@ -210,6 +210,13 @@ def run_table(c):
         fpe = E["BitwiseFFX"]()
         enc = lambda xb: fpe.encrypt(key, xb)
         dec = lambda yb: fpe.decrypt(key, yb)
+        for wn in c.get("warm", []):
+            if wn >= 2:
+                for v in range(2 ** wn):
+                    try:
+                        fpe.decrypt(key, fpe.encrypt(key, mk_bits(int_bits(v, wn))))
+                    except Exception:
+                        pass
     else:
         prp = E["BitwiseFPEPRP"](message_bit_length=n, key_bit_length=8 * len(key))
         kb = E["Bitset"](int.from_bytes(key, "big"), 8 * len(key)) if key else E["Bitset"](0, 0)
@@ -413,6 +420,9 @@ def gen_cases(tr):
     for n in range(2, top + 1):
         for key in tkeys:
             cases.append({"k": "table", "src": "ffx", "n": n, "key": key})
+        # the same cipher OBJECT and key used at the neighbouring widths first (n+1, then n-1), then the table at n:
+        # a cipher object must not carry anything over from one width to another
+        cases.append({"k": "table", "src": "ffx", "n": n, "key": rbytes(rnd, 16), "warm": [n + 1, n - 1]})
         cases.append({"k": "table", "src": "prp", "n": n, "key": rbytes(rnd, 16)})
 
     # (iv) BitwiseFPEPRP: contract (right and wrong widths) and wiring
@@ -623,6 +633,10 @@ def validate(traces, layer, nm):
                            shards=shards, name="tv%s-%s" % (layer, nm), timeout=2400)
 
 
+class _NoBase(Exception):
+    """the run produced no record of the kind a fault is planted in (the code under test misbehaves)"""
+
+
 def planted(recs):
     """Self-test of the trace specification: copies of real records with one planted fault each must be rejected
     with the named clause (a trace specification that accepts everything would make the whole check vacuous)."""
@@ -632,7 +646,7 @@ def planted(recs):
         for r in recs:
             if pred(r):
                 return copy.deepcopy(r)
-        raise MachineryError("no record to plant a fault in")
+        raise _NoBase()
     flip = lambda bits, k=-1: bits[:k] + [1 - bits[k]] + (bits[k + 1:] if k != -1 else [])
     out = []
     small = lambda r: r["k"] == "ffx" and r["rec"] and 5 <= r["n"] <= 40 and r["eo"] == "ok" and r["do"] == "ok"
@@ -664,7 +678,13 @@ def planted(recs):
 
 
 def check_planted(recs):
-    pl = planted(recs)
+    try:
+        pl = planted(recs)
+    except _NoBase:
+        # the self-test needs well-behaved base records; when the code under test does not produce them the real
+        # validation reports that - the self-test is skipped, it must not turn a violation into a machinery error
+        print("note: trace-specification self-test skipped (no suitable base record in this run)")
+        return -1
     for layer in ("A", "B"):
         sel = [(k, x) for k, x in enumerate(pl) if x[1] == layer]
         v, _ = validate([{"tid": "p%d" % k, "ev": [x[0]]} for k, x in sel], layer, "planted")
